@@ -171,9 +171,43 @@ var c04Stream = &vlib.Check{
 	Gen: func(t *rapid.T) *vlib.Case { return &vlib.Case{Project: genCandidate(vlib.RapidRnd{T: t})} },
 }
 
+// c04Nesting: schemas nested as deep as the builder accepts them (and a little deeper): every level of a schema takes two
+// levels of the exchange JSON, and encoding/json refuses to marshal beyond 10000 levels.
+var c04Nesting = &vlib.Check{
+	Prop: "C04", Name: "nesting", Quick: 16, Thorough: 240,
+	Oracle: c04Oracle,
+	Gen: func(t *rapid.T) *vlib.Case {
+		r := vlib.RapidRnd{T: t}
+		// serialising a schema near the limit costs seconds (the nested MarshalJSON calls re-read their children's output):
+		// the quick tier generates moderate depths and visits the boundary through two fixed cases (TestC04)
+		n := 1 + r.Intn(1500)
+		if vlib.Tier() == "thorough" && vlib.Chance(r, 7, 8) {
+			n = vlib.Pick(r, []int{4700 + r.Intn(200), 4899, 4900, 4901, 4950, 5000, 5100, 6000, 9000})
+		}
+		doc, shape := genNestingDoc(r, n)
+		return &vlib.Case{Project: vlib.SingleFile(doc), Params: map[string]any{"levels": n, "shape": shape}}
+	},
+	Classify: func(c *vlib.Case) (bool, []string) {
+		b := vlib.Build(c.Project)
+		defer b.Close()
+		if !b.Out.OK() {
+			return false, []string{"nesting:rejected"}
+		}
+		if asInt(c.Params["levels"]) >= 4000 {
+			return true, []string{"nesting:accepted>=4000"}
+		}
+		return true, []string{"nesting:accepted<4000"}
+	},
+	SampleOf: func(c *vlib.Case) any {
+		return map[string]any{"levels": c.Params["levels"], "shape": c.Params["shape"], "bytes": len(c.Project.RootBytes()), "head": clip(c.Project.RootBytes(), 60)}
+	},
+}
+
+var c04NestingBoundary = &vlib.Check{Prop: "C04", Name: "nesting-boundary", Oracle: c04Oracle, Classify: c04Nesting.Classify, SampleOf: c04Nesting.SampleOf}
+
 var c04Corpus = &vlib.Check{Prop: "C04", Name: "corpus", Oracle: c04Oracle, Classify: acceptedClassify}
 
-func init() { vlib.Register(c04Stream, c04Corpus, c05Stream, c05Corpus) }
+func init() { vlib.Register(c04Stream, c04Corpus, c04Nesting, c04NestingBoundary, c05Stream, c05Corpus) }
 
 // genAllOfFamily: object types written with the rules an object literal may carry, and types inheriting from them through
 // allOf (one parent or a list, chains), used by a response, a request and a Path.  Whatever the builder accepts of these
@@ -636,6 +670,23 @@ func TestC04(t *testing.T) {
 		t.Run("corpus", func(t *testing.T) { c04Corpus.RunEnum(t, corpusEnum()) })
 	}
 	t.Run("stream", c04Stream.Run)
+	t.Run("nesting", c04Nesting.Run)
+	if vlib.Shard() == 0 {
+		t.Run("nesting-boundary", func(t *testing.T) {
+			// the deepest accepted schema must serialise; one level more is refused (or, accepted, must serialise too)
+			levels := []int{4900, 5000}
+			i := 0
+			c04NestingBoundary.RunEnum(t, func() *vlib.Case {
+				if i >= len(levels) {
+					return nil
+				}
+				n := levels[i]
+				i++
+				doc := "JSIGHT 0.3\n\nGET /a\n  200\n    " + strings.Repeat("[", n) + "1" + strings.Repeat("]", n) + "\n"
+				return &vlib.Case{Project: vlib.SingleFile([]byte(doc)), Params: map[string]any{"levels": n, "shape": "arrays"}}
+			})
+		})
+	}
 }
 
 // ---- C05 ---------------------------------------------------------------------------------------------------------
